@@ -193,9 +193,11 @@ def all_unit_cases():
     for mask in range(256):
         q = [QUALS[i] for i in range(8) if mask >> i & 1]
         vs = list(vals)
+        curs = [None, 0, 1, 2, 3]          # a current value of 0 is a value like any other (it is not "absent")
         if "increase" not in q and "decrease" not in q:
-            vs = vals + ["true", "false"]
-        for cur in vs:
+            vs = [None, 0, 1, 2, 3] + ["true", "false"]
+            curs = vs
+        for cur in curs:
             for y in vs:
                 if (isinstance(cur, str) and isinstance(y, int)) or (isinstance(cur, int) and isinstance(y, str)):
                     mixed = True
